@@ -39,7 +39,7 @@ for pid in sorted(PROPS):
         "; ".join(k) or "—"))
 print("\n### 11.4 Seeded changes (written by sub-agents that saw only the property text) and which check reports them\n")
 res = {}
-for lf in sorted(glob.glob(os.path.join(ROOT, "build", "seedtest*.log"))):
+for lf in sorted(glob.glob(os.path.join(ROOT, "build", "seedtest*.log")), key=os.path.getmtime):  # later runs win
     for line in open(lf):
         m = re.match(r"(\S+) (\{.*\})", line.strip())
         if m:
